@@ -78,6 +78,16 @@ DomCat(dx, C, P) ==
 
 RECURSIVE TypeOf(_, _, _), TypeSeq(_, _, _, _), TypesOf(_, _, _)
 
+(* does the call x (positional argument types ts, keyword arguments x.kw) fit function f?  Every parameter after the     *)
+(* positional ones is named by exactly one keyword argument of fitting type or has a default value (f.defs[i] # none)  *)
+HasDefault(f, i) == "defs" \in DOMAIN f /\ f.defs[i].e # "none"
+CallFits(x, ts, f, C, P) ==
+  LET n == Len(f.pts) np == Len(ts) kws == IF "kw" \in DOMAIN x THEN x.kw ELSE <<>> IN
+  IF kws = <<>> /\ np = n THEN AllFit(ts, f.pts)
+  ELSE /\ np <= n /\ (\A i \in 1..np : Fits(ts[i], f.pts[i]))
+       /\ (\A k \in 1..Len(kws) : \E i \in (np + 1)..n : f.ps[i] = kws[k].p /\ Fits(TypeOf(kws[k].v, C, P), f.pts[i]))
+       /\ (\A k1, k2 \in 1..Len(kws) : kws[k1].p = kws[k2].p => k1 = k2)
+       /\ (\A i \in (np + 1)..n : (\E k \in 1..Len(kws) : kws[k].p = f.ps[i]) \/ HasDefault(f, i))
 (* the filter of `for x in s | c`: a Boolean over the loop variable *)
 FiltOk(x, C1, P) == ("filt" \notin DOMAIN x) \/ x.filt.e = "none" \/ Fits(TypeOf(x.filt, C1, P), BOOL)
 TypesOf(es, C, P) == [i \in 1..Len(es) |-> TypeOf(es[i], C, P)]
@@ -145,7 +155,7 @@ TypeOf(x, C, P) ==
     [] e = "call" ->
          IF x.fi \in 1..Len(P.funs)
          THEN LET ts == TypesOf(x.args, C, P)
-                  cands == {j \in 1..Len(P.funs) : P.funs[j].oname = P.funs[x.fi].oname /\ AllFit(ts, P.funs[j].pts)}
+                  cands == {j \in 1..Len(P.funs) : P.funs[j].oname = P.funs[x.fi].oname /\ CallFits(x, ts, P.funs[j], C, P)}
               \* (a mutated call may legitimately resolve to another function of the same name: its type is
               \* that function's result type and the context decides)
               IN IF Cardinality(cands) = 1 THEN P.funs[CHOOSE j \in cands : TRUE].rt ELSE ERR
@@ -240,6 +250,8 @@ FunOk(f, G, P) ==
                      THEN [t |-> f.pts[CHOOSE i \in 1..Len(f.ps) : f.ps[i] = n], asg |-> TRUE] ELSE G[n]],
             ret |-> IF f.rt[1] \in {"gen", "fn"} THEN ERR ELSE f.rt, loop |-> FALSE, yl |-> ERR, cat |-> 0, pcat |-> 0]
   IN Len(f.ps) = Len(f.pts) /\ Fits(TypeOf(f.body, C, P), f.rt)
+     /\ (("defs" \in DOMAIN f) => Len(f.defs) = Len(f.ps)
+            /\ \A i \in 1..Len(f.ps) : f.defs[i].e = "none" \/ Fits(TypeOf(f.defs[i], Ctx(G, ERR, FALSE, ERR), P), f.pts[i]))
 
 (* file level: forms in `order`; a global is visible to the forms after its definition; a      *)
 (* function sees the globals defined before it.  Function names are constants of the file.     *)
